@@ -898,6 +898,7 @@ impl Exec {
                 if *slot >= n_slots {
                     invalid!();
                 }
+                let discarded_before = crate::logprobe::discarded_answers();
                 // reference: identity (or the precondition), then layer by layer without pruning
                 let pre_tree = match pre {
                     Some(c) => match guarded(|| c.build()) {
@@ -963,10 +964,10 @@ impl Exec {
                 let ok = r.is_ok();
                 let m = self.finish(*slot, &site, r, &expected, true, RefEval::ModelOnly, 0, &mut out);
                 if let Some(m) = m {
-                    if ok && !out.stop && total_pre && self.check && !(self.mode == Mode::Fault && self.faults_armed()) && !self.seam.borrow().tolerance_answers && !self.float {
+                    if ok && !out.stop && total_pre && self.check && !(self.mode == Mode::Fault && self.faults_armed()) && !self.seam.borrow().tolerance_answers && (!self.float || crate::logprobe::discarded_answers() == discarded_before) {
                         // C06 (d): #full-dimensional regions <= #terminals <= #non-empty closed regions
                         let mut ws = WalkStats::default();
-                        let fat = count_fat_leaves(&expected, &mut ws);
+                        let fat = count_fat_leaves(&expected, self.fat_box(), &mut ws);
                         let (nonempty, _total) = model_leaf_classes(&expected);
                         let terms = self.pool[*slot].num_terminals();
                         self.stats.c06_region_bounds_checked += 1;
@@ -1285,6 +1286,32 @@ impl Exec {
         if pts.iter().any(|v| !v.is_finite()) {
             return;
         }
+        // one probe in six starts far out (1e6..1e7) along the facet, a few ulps off it: there the
+        // heuristic's normalized 1e-10 margin lies below the rounding error of its own test
+        if scaled && wd.nonempty() && in_dim >= 2 && self.probe_rng.chance(1, 6) {
+            let live: Vec<&Row> = exact_rows.iter().filter(|r| !r.is_zero_row()).collect();
+            if !live.is_empty() {
+                let r = live[self.probe_rng.below(live.len())];
+                let a: Vec<f64> = r.a.iter().map(|q| q.to_f64()).collect();
+                // a direction orthogonal to the row: swap two coordinates with a sign
+                let i = self.probe_rng.below(in_dim);
+                let j = (i + 1 + self.probe_rng.below(in_dim - 1)) % in_dim;
+                let mut v = vec![0.0; in_dim];
+                v[i] = a[j];
+                v[j] = -a[i];
+                let vn: f64 = v.iter().map(|x| x * x).sum::<f64>().sqrt();
+                let an: f64 = a.iter().map(|x| x * x).sum::<f64>().sqrt();
+                if vn > 0.0 && an > 0.0 {
+                    let t = *self.probe_rng.pick(&[1e6, 3e6, 1e7]) / vn;
+                    let lam = crate::exact::ray_shoot(&exact_rows, &wd.center, &r.a).unwrap_or(Q::zero());
+                    let c = self.probe_rng.below(n_pts);
+                    let off = *self.probe_rng.pick(&[0.0, 1e-9, -1e-9, 1e-7]);
+                    for k in 0..in_dim {
+                        pts[[k, c]] = wd.center[k].to_f64() + lam.to_f64() * a[k] + t * v[k] + off * a[k] / an;
+                    }
+                }
+            }
+        }
         // one probe in eight starts from a point with a non-finite coordinate (what a misbehaving
         // backend hands to the repair): whatever comes back must still be a point of the polytope
         if self.probe_rng.chance(1, 8) {
@@ -1299,6 +1326,20 @@ impl Exec {
             for col in found.columns() {
                 self.stats.mirror_probe_points_returned += 1;
                 let p = col.to_vec();
+                // the library's own containment test is the documented standard ...
+                if !poly.contains(&col) {
+                    out.violations.push(self.viol(
+                        Clause::Cache,
+                        "mirror_point_rejected_by_contains",
+                        site,
+                        format!("mirror_points returned {:?} for the path polytope of node {idx} (slot {slot}), but Polytope::contains rejects it for the same polytope", p),
+                    ));
+                    if self.stops(Clause::Cache) {
+                        out.stop = true;
+                    }
+                    return;
+                }
+                // ... and exact arithmetic with the rounding allowance of that test the referee
                 if !oracle::points_inside(&mat, &bias, &p) {
                     out.violations.push(self.viol(
                         Clause::Cache,
